@@ -64,6 +64,8 @@ def leaf(kind, ids, rng=None, text_ws=False, inline_only=False):
 
 def node_of_kind(kind, ids, rng, children=()):
     how = rng.choice(gen.HOWS) if rng.random() < 0.3 else "ctor"
+    if rng.random() < 0.06 and children and all(c["k"] not in ("obj", "none") for c in children):
+        how = "displayed"    # the children arrive by being displayed, one after the other, inside the element's `with` block
     sub = {"subclass": True} if rng.random() < 0.05 else {}
     fixed = bool(sub) and rng.random() < 0.5
     if kind == "block":
@@ -120,7 +122,7 @@ def rand_layout_tree(rng, ids, depth, valid=True, inside_inline=False, max_child
     if kind == "rawtext":
         # <script>/<style>: text children are written verbatim, the layout rules are the same as for any tag
         n = rng.choice([0, 1, 2, 2, 3])
-        kids = [{"k": "text", "s": ids.next("s")} for _ in range(n)]
+        kids = [{"k": "text", "s": ids.next("s") + rng.choice(["", "", "//note", "/*c*/", "url(//cdn.example/x)", "http://e.org/"])} for _ in range(n)]
         if n and rng.random() < 0.2:
             kids.append({"k": "meta"})
         ws = rng.random() < 0.5 and not (valid and inside_inline)
